@@ -53,14 +53,20 @@ Preserving == {"identical", "documented", "skipped_extra"}
 
 Verdict(a, b) == IF Interface(a) = Interface(b) THEN "Valid" ELSE "Invalid"
 
-(* groups: set of optional traits (name order is canonical, listing order is not C-visible) *)
-GBase == [mand |-> <<"T">>, opt |-> <<"U", "V">>]
+(* groups: set of mandatory and optional traits (name order is canonical, listing order is not C-visible); the   *)
+(* interface of a group includes the interface of every member trait: `tweak` names the members whose method     *)
+(* takes another argument type than in the base build                                                            *)
+GBase == [mand |-> <<"T">>, opt |-> <<"U", "V">>, tweak |-> {}]
 GEdits == [ identical |-> GBase,
             relisted  |-> [GBase EXCEPT !.opt = <<"V", "U">>],
             remove_opt |-> [GBase EXCEPT !.opt = <<"U">>],
             add_opt    |-> [GBase EXCEPT !.opt = <<"U", "V", "W">>],
-            other_opt  |-> [GBase EXCEPT !.opt = <<"U", "W">>] ]
-GInterface(g) == [mand |-> {g.mand[k] : k \in DOMAIN g.mand}, opt |-> {g.opt[k] : k \in DOMAIN g.opt}]
+            other_opt  |-> [GBase EXCEPT !.opt = <<"U", "W">>],
+            mand_member_changed |-> [GBase EXCEPT !.tweak = {"T"}],
+            opt_member_changed  |-> [GBase EXCEPT !.tweak = {"U"}],
+            last_opt_member_changed |-> [GBase EXCEPT !.tweak = {"V"}] ]
+Member(g, n) == [name |-> n, changed |-> n \in g.tweak]
+GInterface(g) == [mand |-> {Member(g, g.mand[k]) : k \in DOMAIN g.mand}, opt |-> {Member(g, g.opt[k]) : k \in DOMAIN g.opt}]
 GVerdict(a, b) == IF GInterface(a) = GInterface(b) THEN "Valid" ELSE "Invalid"
 
 (* combining verdicts: Invalid absorbs, Unknown dominates Valid *)
